@@ -902,6 +902,134 @@ func refusedWrites(t *testing.T, basic bool, observe, hb time.Duration, a, w int
 }
 
 // ---------------------------------------------------------------------------------------------
+// a crash while joining, after conflict resolution took one of the tokens: the next incarnation finds its
+// entry JOINING with a partial token set and must still become active with the full count
+
+func TestCrashAfterTokenLossWhileJoining(t *testing.T) {
+	idx := 0
+	for _, numTokens := range []int{2, 4} {
+		for _, observe := range []time.Duration{2 * time.Second, 5 * time.Second} {
+			for lost := 0; lost < numTokens; lost++ {
+				for _, after := range []bool{false, true} {
+					idx++
+					if !vx.Mine(idx) {
+						continue
+					}
+					failure := crashAfterTokenLoss(t, numTokens, observe, lost, after)
+					vx.Eval(1)
+					vx.NonTrivial(vx.FP("crash-after-token-loss", numTokens, observe, lost, after))
+					if failure != "" {
+						vx.Failf(t, "TestCrashAfterTokenLossWhileJoining", map[string]any{"tokens": numTokens, "observe": observe.String(), "lost_token_index": lost, "crash_after_commit": after},
+							"tokens=%d observe=%v lost token #%d crash after commit=%v: %s", numTokens, observe, lost, after, failure)
+					}
+				}
+			}
+		}
+	}
+	vx.Exhaustive("crash while joining after a token was lost: full lifecycler, 2/4 tokens x observe 2/5 s x each token in turn x crash before/after the commit of the next write")
+}
+
+func crashAfterTokenLoss(t *testing.T, numTokens int, observe time.Duration, lost int, after bool) (failure string) {
+	vx.Bubble(t, func(b *vx.B) {
+		store, closer := consul.NewInMemoryClient(ring.GetCodec(), log.NewNopLogger(), nil)
+		b.Cleanup(func() { _ = closer.Close() })
+		ctx := context.Background()
+		_ = store.CAS(ctx, lcx.RingKey, func(interface{}) (interface{}, bool, error) {
+			d := ring.NewDesc()
+			d.AddIngester("other", "other:1", "z", []uint32{28, 29, 30, 31}, ring.ACTIVE, time.Now(), false, time.Time{}, nil)
+			return d, true, nil
+		})
+		cfg := lcx.Cfg{ID: "ing-1", NumTokens: numTokens, JoinAfter: time.Second, Observe: observe, HBPeriod: time.Second, GenSeed: 7, GenSpace: 28, FinalSleep: time.Second}
+		f1 := fakekv.NewFaulty(store)
+		l1, err := lcx.New(cfg, f1)
+		if err != nil {
+			failure = err.Error()
+			return
+		}
+		var l2 *lcx.LC
+		b.Cleanup(func() {
+			f1.Release()
+			l1.Svc.StopAsync()
+			if l2 != nil {
+				l2.Svc.StopAsync()
+			}
+			time.Sleep(20 * time.Second)
+		})
+		if err := services.StartAndAwaitRunning(ctx, l1.Svc); err != nil {
+			failure = err.Error()
+			return
+		}
+		time.Sleep(time.Second + 100*time.Millisecond)
+		vx.Wait()
+		e, ok := entry(store, "ing-1")
+		if !ok || e.State != ring.JOINING || len(e.Tokens) != numTokens {
+			failure = fmt.Sprintf("setup: instance not joining with its tokens: %+v", e)
+			return
+		}
+		registered := e.RegisteredTimestamp
+		// the process dies inside its next write (a heartbeat, one second from now) ...
+		f1.After = after
+		f1.CrashAt = f1.Writes() + 1
+		// ... after conflict resolution gave one of its tokens to "other"
+		tk := e.Tokens[lost]
+		_ = store.CAS(ctx, lcx.RingKey, func(v interface{}) (interface{}, bool, error) {
+			d := ring.GetOrCreateRingDesc(v)
+			in := d.Ingesters["ing-1"]
+			in.Tokens = append(append([]uint32{}, in.Tokens[:lost]...), in.Tokens[lost+1:]...)
+			d.Ingesters["ing-1"] = in
+			o := d.Ingesters["other"]
+			o.Tokens = append(append([]uint32{}, o.Tokens...), tk)
+			sort.Slice(o.Tokens, func(a, b int) bool { return o.Tokens[a] < o.Tokens[b] })
+			d.Ingesters["other"] = o
+			return d, true, nil
+		})
+		time.Sleep(1500 * time.Millisecond)
+		vx.Wait()
+		if !f1.Crashed() {
+			failure = "setup: the first incarnation did not reach its next write"
+			return
+		}
+		e, _ = entry(store, "ing-1")
+		kept := append([]uint32{}, e.Tokens...)
+		// a new incarnation with the same identity
+		l2, err = lcx.New(cfg, store)
+		if err != nil {
+			failure = err.Error()
+			return
+		}
+		if err := services.StartAndAwaitRunning(ctx, l2.Svc); err != nil {
+			failure = fmt.Sprintf("the restarted lifecycler failed to start: %v", err)
+			return
+		}
+		time.Sleep(time.Second + 3*observe + 5*time.Second)
+		vx.Wait()
+		e, ok = entry(store, "ing-1")
+		if !ok || e.State != ring.ACTIVE || len(e.Tokens) != numTokens {
+			failure = fmt.Sprintf("the restarted instance (entry left JOINING with tokens %v) is %v with %d tokens %v, want ACTIVE with %d", kept, e.State, len(e.Tokens), e.Tokens, numTokens)
+			return
+		}
+		have := map[uint32]bool{}
+		for i, x := range e.Tokens {
+			if x == tk || x >= 28 || (i > 0 && e.Tokens[i-1] >= x) {
+				failure = fmt.Sprintf("tokens %v are not sorted, distinct and disjoint from the other member's (which now holds %d too)", e.Tokens, tk)
+				return
+			}
+			have[x] = true
+		}
+		for _, x := range kept {
+			if !have[x] {
+				failure = fmt.Sprintf("the restarted instance dropped token %d that its entry recorded (%v -> %v)", x, kept, e.Tokens)
+				return
+			}
+		}
+		if e.RegisteredTimestamp != registered {
+			failure = fmt.Sprintf("registration time changed across the restart: %d -> %d", registered, e.RegisteredTimestamp)
+		}
+	})
+	return failure
+}
+
+// ---------------------------------------------------------------------------------------------
 // the tokens file follows the tokens: a token replaced while joining (conflict resolution gave it to
 // somebody else) is replaced in the file too, so that a later restart without a ring entry resumes
 // with the tokens the instance really held
